@@ -82,6 +82,8 @@ def cases(tier, seed):
         for fname, fargs in FILTERS:
             for out_mode in ("stdout", "file"):
                 out.append({"tree": tree, "filter": fname, "fargs": fargs, "out": out_mode, "hard": hard, "ti": ti})
+    for out_mode in ("stdout", "file"):
+        out.append({"link_root": True, "out": out_mode, "orders": [["LNK", "B", "C"], ["B", "LNK", "C"], ["C", "B", "LNK"]]})
     return out
 
 
@@ -135,7 +137,58 @@ def root_of(p):
     return None
 
 
+def evaluate_link_root(case):
+    """--isolate -S where one input path is a symbolic link to a file (a root of its own): the link is listed at the
+    position of its root, and the header counts the files outside the first root as redundant."""
+    viol = []
+    feat = {"filter": "isolate_symlink_root", "output": case["out"]}
+    with C.Scratch() as sc:
+        body = ["base", 5000, 3]
+        C.make_tree(sc.tree, [{"p": "T/t", "k": "file", "c": body}, {"p": "LNK", "k": "sym", "to": "T/t"},
+                              {"p": "B/b1", "k": "file", "c": body}, {"p": "B/b2", "k": "file", "c": body},
+                              {"p": "C/c1", "k": "file", "c": body}])
+        results = {}
+        for order in case["orders"]:
+            for fmt in FORMATS:
+                args = ["group", "--min", "0", "--isolate", "-S"] + order + ["-f", fmt]
+                outfile = None
+                if case["out"] == "file":
+                    outfile = os.path.join(sc.root, "report.out")
+                    args += ["-o", outfile]
+                rc, out, err, to = C.fclones(args, sc)
+                if to or rc != 0:
+                    viol.append(dict(feat, kind="crash", format=fmt, detail="rc=%s %s; %s" % (rc, err[-300:], args)))
+                    continue
+                if outfile:
+                    out = C.read_file(outfile)
+                try:
+                    groups, st = parse_output(fmt, out)
+                except Exception as e:
+                    viol.append(dict(feat, kind="unparsable", format=fmt, detail="%s: %r" % (e, out[:300])))
+                    continue
+                if len(groups) != 1:
+                    viol.append(dict(feat, kind="count_mismatch", format=fmt, detail="%d groups for %s" % (len(groups), order)))
+                    continue
+                got = [C.u(p)[len(sc.tree) + 1:] for p in groups[0]["paths"]]
+                want = []
+                for r in order:
+                    want += {"LNK": ["LNK"], "B": ["B/b1", "B/b2"], "C": ["C/c1"]}[r]
+                if got != want:
+                    viol.append(dict(feat, kind="isolate_roots_not_contiguous_in_order", format=fmt,
+                                     detail="roots %s: paths %s, expected %s" % (order, got, want)))
+                if st is not None:
+                    first = {"LNK": 1, "B": 2, "C": 1}[order[0]]
+                    if st.get("redundant_file_count") != 4 - first:
+                        viol.append(dict(feat, kind="stat_mismatch", field="redundant_file_count", format=fmt,
+                                         detail="roots %s: header says %s redundant files, %d lie outside the first root" % (
+                                             order, st.get("redundant_file_count"), 4 - first)))
+    return {"violations": viol, "nontrivial": ["isolate_symlink_root", case["out"]], "outcome": ["groups"], "evaluations": len(case["orders"]) * 4,
+            "sample": {"filter": "isolate_symlink_root", "out": case["out"]}}
+
+
 def evaluate(case):
+    if case.get("link_root"):
+        return evaluate_link_root(case)
     viol = []
     fname, fargs = case["filter"], case["fargs"]
     feat = {"filter": fname, "output": case["out"]}
